@@ -331,3 +331,30 @@ def fields_touched(ws, fn, adt_name):
             if t and t["k"] == "switch":
                 visit(b, cfg.op_place(t["d"]), False)
     return reads, writes
+
+
+def arm_regions(body, es):
+    """variant -> set of blocks reachable only from that variant's arm of
+    an enum switch (the switch block itself is cut, so loops do not merge arms)."""
+    out = {}
+    reach = {v: cfg.reach(body, [t], cut_blocks=[es.block]) for v, t in es.targets.items()}
+    if es.otherwise_live:
+        reach["_"] = cfg.reach(body, [es.otherwise], cut_blocks=[es.block])
+    for v in reach:
+        others = set()
+        for w, rr in reach.items():
+            if w != v:
+                others |= rr
+        out[v] = reach[v] - others
+    return out
+
+
+def arm_calls(body, es):
+    """variant -> list of (block, term) real calls in the arm's exclusive region."""
+    regs = arm_regions(body, es)
+    out = {}
+    for v, blocks in regs.items():
+        out[v] = [(i, body.blocks[i]["term"]) for i in sorted(blocks)
+                  if body.blocks[i].get("term", {}).get("k") == "call"
+                  and not is_noise(body.blocks[i]["term"]) and not is_logging(body.blocks[i]["term"])]
+    return out
